@@ -105,9 +105,9 @@ def run(chk):
                     rets = ('vector', 'scalar0d', 'pyscalar') if kind == 'PINN' else ('vector',)
                     if cond == 'dirichlet':
                         variants += [(1, None, r) for r in rets]
-                        variants += [(2, None, 'vector')]
+                        variants += [(2, None, 'vector'), (2, 1, 'vector')]
                         if thorough:
-                            variants += [(2, slice(1, 2), r) for r in rets] + [(3, slice(0, 2), 'vector'), (2, 1, 'vector')]
+                            variants += [(2, slice(1, 2), r) for r in rets] + [(3, slice(0, 2), 'vector')]
                     else:
                         variants += [(1, None, r) for r in rets]
                         variants += [(2, slice(1, 2), 'vector')]
